@@ -242,7 +242,7 @@ func (vc *VC) beUint64(fr *Frame, b SV, put bool, v SV) SV {
 		t += ")"
 		return scalar(vc.def(bvSort(64), t))
 	}
-	vc.frameCheck(Loc{Space: 'E', TK: tk, Ref: b.L[0]}, "bigendian")
+	vc.frameCheck(Loc{Space: 'E', TK: tk, Ref: b.L[0], WinLo: b.L[1], WinLen: "(_ bv8 64)"}, "bigendian")
 	na := arr
 	for k := 0; k < 8; k++ {
 		hi := 63 - 8*k
